@@ -97,8 +97,6 @@ Definition allow_list : list allow := [
     "the 'stack' getter of an Error object reads obj.value, the ottoError payload fixed when the object was made; in a copy it reads the template's payload, which is the same immutable text";
   mkAllow "closure *otto.object read" "otto.(*runtime).newErrorObjectError" []
     "as newErrorObject";
-  mkAllow "closure *otto.runtime call" "otto.(*runtime).toValue" []
-    "KNOWN FINDING C20-bridged-func-template-runtime (findings/C20.json, pinned witness in the race run, proposed_fixes/C20-bridged-func-runtime.diff): the wrapper of a bridged Go func converts arguments and results with the runtime that bridged it, so in a copy results are built in the template's heap";
   mkAllow "file.File.sm" "file.(*File).WithSourceMap" ["parser.newParser"]
     "builder-style setter applied by parser.newParser to the File it has just created with file.NewFile, before the File is reachable from any Program"
 ].
@@ -150,7 +148,11 @@ Definition clone_field_ok (c : clone_field) : bool :=
   negb (seqb (cf_how c) "verbatim" && cf_ref c) || allowed (cf_type c ++ "." ++ cf_field c) (cf_func c).
 
 (* a native closure over an object/runtime of its creator keeps working on the TEMPLATE's object or
-   runtime when it is called in a copy: each one needs an allow-list entry for exactly its kind of use *)
+   runtime when it is called in a copy: each one needs an allow-list entry for exactly its kind of use.
+   A literal that REBINDS the name from the call (`rt := c.runtime` as in runtime.toValue since
+   0e6c197) does not refer to the creator's variable at all - every use inside resolves to the inner
+   variable - so it produces no entry; taking the rebinding away brings back a "call" entry, which
+   nothing here allows (fixed finding C20-bridged-func-template-runtime). *)
 Definition closure_ok (c : native_closure) : bool :=
   allowed ("closure " ++ nc_type c ++ " " ++ nc_usage c) (nc_func c).
 
